@@ -606,7 +606,8 @@ class Table(Vector):
 					elif base == key_lower:
 						return col
 					else:
-						unique_name = f"{base}__{idx}"
+						# (as in the accessor map: no triple underscore when the base already ends in one)
+						unique_name = f"{base}{'' if base.endswith('_') else '_'}_{idx}"
 						seen.add(unique_name)
 						if unique_name == key_lower:
 							return col
@@ -648,7 +649,7 @@ class Table(Vector):
 								found = True
 								break
 							else:
-								unique_name = f"{base }__{idx}"
+								unique_name = f"{base}{'' if base.endswith('_') else '_'}_{idx}"
 								seen.add(unique_name)
 								if unique_name == col_name_lower:
 									selected_cols.append(col.copy())
